@@ -597,7 +597,7 @@ fn gen_case(id: u64, r: &mut Rng, out: &mut Out) -> (String, Vec<String>) {
             ops.push(format!("pbkdf i=1{}", p));
             let alive = r.chance(1, 2);
             let stage1 = r.chance(1, 2);
-            let idle = if alive { rxp - r.range(150, 1500).min(rxp - 1) } else { rxp + ladderp + r.range(300, 3000) };
+            let idle = if alive { rxp - r.range(200, 1500).min(rxp - 1) } else { rxp + ladderp + r.range(300, 3000) };
             out.stat(if alive { "idle_below_rx_timeout" } else { "idle_beyond_rx_timeout" }, 1);
             if stage1 && idle < 800_000 {
                 ops.push(format!("tick ms={}", idle));
